@@ -66,7 +66,7 @@ func (c *Case) watchdogMs() int {
 		switch s.Op {
 		case "storm":
 			total += 6000 + c.opBoundMs("transition")
-		case "sleep", "sleep-rel", "await":
+		case "sleep", "sleep-rel", "await", "await-quiescent":
 			total += s.Ms
 		default:
 			total += c.opBoundMs(s.Op) + 3000
@@ -98,8 +98,8 @@ func trimEvents(evs []Rec) []Rec {
 	return out
 }
 
-func runBatch() {
-	c := vlib.Start("C17")
+func runBatch(prop string) {
+	c := vlib.Start(prop)
 	defer c.Finish()
 
 	self, err := os.Executable()
@@ -115,10 +115,13 @@ func runBatch() {
 		c.Inconclusive("fakeocc binary not found in " + bin)
 		return
 	}
-	nTpl := len(allTemplates())
+	nTpl := len(templatesFor(prop))
 	n := nTpl
 	if c.Tier == "thorough" {
 		n = 1500
+		if prop == "C16B" {
+			n = 3 * nTpl
+		}
 	}
 	if v, err := strconv.Atoi(os.Getenv("VERIF_C17_CASES")); err == nil && v > 0 {
 		n = v
@@ -149,7 +152,7 @@ func runBatch() {
 		go func() {
 			defer wg.Done()
 			for idx := range work {
-				runCase(c, idx, self, bin, casesRoot, only, keep)
+				runCase(c, prop, idx, self, bin, casesRoot, only, keep)
 			}
 		}()
 	}
@@ -162,9 +165,9 @@ func runBatch() {
 
 // runCase repeats a case (same seed-derived parameters, new port) when its child could not
 // open the reserved control port: that is interference from outside, not behaviour of the code.
-func runCase(c *vlib.Ctx, idx int, self, bin, casesRoot, only string, keep bool) {
+func runCase(c *vlib.Ctx, prop string, idx int, self, bin, casesRoot, only string, keep bool) {
 	for attempt := 0; attempt < 3; attempt++ {
-		if !runCaseOnce(c, idx, attempt, self, bin, casesRoot, only, keep) {
+		if !runCaseOnce(c, prop, idx, attempt, self, bin, casesRoot, only, keep) {
 			return
 		}
 		c.Count("port_collisions_retried", 1)
@@ -172,9 +175,9 @@ func runCase(c *vlib.Ctx, idx int, self, bin, casesRoot, only string, keep bool)
 	c.Inconclusive(fmt.Sprintf("case %d: control port unusable three times in a row", idx))
 }
 
-func runCaseOnce(c *vlib.Ctx, idx, attempt int, self, bin, casesRoot, only string, keep bool) (retry bool) {
+func runCaseOnce(c *vlib.Ctx, prop string, idx, attempt int, self, bin, casesRoot, only string, keep bool) (retry bool) {
 	r := c.SubRand(int64(idx))
-	cs := makeCase(idx, r)
+	cs := makeCase(prop, idx, r)
 	label := cs.Kind + "/" + cs.Scenario + "/" + cs.Variant
 	if only != "" && !strings.Contains(label, only) {
 		return false
@@ -259,7 +262,17 @@ func runCaseOnce(c *vlib.Ctx, idx, attempt int, self, bin, casesRoot, only strin
 	}
 
 	evs := readRecord(filepath.Join(cs.Dir, "record.jsonl"))
-	vs, ended := judge(cs, evs)
+	var vs []verdict
+	var ended bool
+	if cs.Prop == "C16B" {
+		var why string
+		vs, ended, why = judgeC16B(c, cs, evs)
+		if why != "" && ended {
+			c.Inconclusive(fmt.Sprintf("case %d (%s): %s", idx, label, why))
+		}
+	} else {
+		vs, ended = judge(cs, evs)
+	}
 	suffix := "|" + cs.Kind + "/" + cs.Scenario
 	stderrExcerpt := ""
 	crashed := false
